@@ -128,6 +128,9 @@ class SharedMemoryFileBufferedCollection(FileBufferedCollection):
                     if cached_data["modified"]:
                         if cached_data["metadata"] != self._get_file_metadata():
                             raise MetadataError(self._filename, cached_data["contents"])
+                        # The entry is shared by all collections bound to this
+                        # file; this instance may not have loaded it (yet).
+                        self._data = cached_data["contents"]
                         self._save_to_resource()
                 finally:
                     # Whether or not an error was raised, the cache must be
